@@ -1069,6 +1069,9 @@ pub fn grid(full: bool) -> Vec<DataType> {
         list_of(Int8),
         list_of(Decimal256(40, 3)),
         list_of(LargeBinary),
+        // dictionary child of a union (Flight hydration treats sparse and dense differently)
+        union_of(vec![(0, "d", dict_of(Int8, Utf8)), (1, "i", Int32)], UnionMode::Dense),
+        union_of(vec![(0, "d", dict_of(Int8, Utf8)), (1, "i", Int32)], UnionMode::Sparse),
     ];
     if full {
         v.extend([
@@ -1112,8 +1115,6 @@ pub fn grid(full: bool) -> Vec<DataType> {
             union_of(vec![(1, "a", Int32), (2, "b", Utf8), (7, "c", Boolean)], UnionMode::Sparse),
             union_of(vec![(0, "l", list_of(Int32)), (1, "v", Utf8View)], UnionMode::Dense),
             union_of(vec![(0, "l", list_of(Int32)), (1, "v", Utf8View)], UnionMode::Sparse),
-            union_of(vec![(0, "d", dict_of(Int8, Utf8)), (1, "i", Int32)], UnionMode::Dense),
-            union_of(vec![(0, "d", dict_of(Int8, Utf8)), (1, "i", Int32)], UnionMode::Sparse),
             list_of(list_of(list_of(Int32))),
             struct_of(vec![("r", ree_of(Int16, Utf8), true), ("u", union_of(vec![(0, "i", Int32)], UnionMode::Sparse), true)]),
             large_list_of(dict_of(Int32, Utf8)),
